@@ -39,7 +39,7 @@ func init() {
 			"the 'fee pool' of the statement is the fee-collector module account the service keeper is configured with (service_fee_collector in e2e.AppConfig)",
 			"a request's fee is the fee recorded on the compact request; the discount formula itself is not judged",
 		},
-		Cases: func(t string) int { return tierN(t, 9, 64) },
+		Cases: func(t string) int { return tierN(t, 16, 64) },
 		Run:   func(run *ev.Run, c int) { runService(run, c, "C07") },
 	})
 	Register(&Spec{
@@ -50,7 +50,7 @@ func init() {
 			"the period rule is judged only between consecutive batches during which the context record (state and settings) did not change",
 			"threshold met = number of responses of the batch carrying an output >= the batch's response threshold",
 		},
-		Cases: func(t string) int { return tierN(t, 9, 64) },
+		Cases: func(t string) int { return tierN(t, 16, 64) },
 		Run:   func(run *ev.Run, c int) { runService(run, c, "C08") },
 	})
 }
